@@ -46,6 +46,9 @@ pub struct Cfg {
     pub k: usize,
     pub flag: bool,
     pub sparse_k: usize,
+    /// size-threshold stratum: 65..=70 feature columns (p > 64) on at least 80 rows
+    #[serde(default)]
+    pub wide: bool,
 }
 
 fn model_bytes<T: Serialize>(out: &mut Out, name: &str, m: &T) {
@@ -88,8 +91,9 @@ macro_rules! pls {
 impl Runnable for Cfg {
     fn run(&self) -> Out {
         let mut out = Out::new();
-        let p = self.p.max(2);
-        let x = data::gaussian(self.data_seed, self.n, p) + data::blobs(self.data_seed ^ 2, self.n, p, 3, 0.1);
+        let p = if self.wide { 65 + self.p % 6 } else { self.p.max(2) };
+        let n = if self.wide { self.n.max(80) } else { self.n };
+        let x = data::gaussian(self.data_seed, n, p) + data::blobs(self.data_seed ^ 2, n, p, 3, 0.1);
         let q = data::gaussian(self.data_seed ^ 0x71, 30, p);
         let k = self.k.clamp(1, p);
         match self.algo {
@@ -161,7 +165,7 @@ impl Runnable for Cfg {
             Algo::PlsRegression | Algo::PlsCanonical | Algo::PlsCca | Algo::PlsSvd => {
                 let y1 = data::response(&x, self.data_seed, 0.3);
                 let y2 = data::response(&x, self.data_seed ^ 8, 0.3);
-                let y = Array2::from_shape_fn((self.n, 2), |(i, j)| if j == 0 { y1[i] } else { y2[i] });
+                let y = Array2::from_shape_fn((n, 2), |(i, j)| if j == 0 { y1[i] } else { y2[i] });
                 let ds = DatasetBase::new(x, y);
                 let kk = k.min(2);
                 match self.algo {
@@ -215,6 +219,7 @@ impl Runnable for Cfg {
             Algo::FastIcaSeeded => "fast_ica_with_random_state",
         });
         obs.class_if(self.algo == Algo::Pca && self.flag, "pca_whitened");
+        obs.class_if(self.wide, "more_than_64_features");
         obs.class_if(self.algo == Algo::DiffusionMap && self.sparse_k > 0, "diffusion_map_sparse_kernel");
         // non-trivial: the estimator draws random numbers (seeded explicitly or by a builder default)
         obs.nontrivial_if(matches!(
@@ -242,8 +247,8 @@ pub fn strategy(tier: Tier) -> impl Strategy<Value = Cfg> {
         1 => Just(Algo::PlsSvd),
         2 => Just(Algo::FastIcaSeeded),
     ];
-    (algo, any::<u64>(), any::<u64>(), 15usize..=max_n, 2usize..=6, 1usize..=4, any::<bool>(), 0usize..=4).prop_map(
-        |(algo, data_seed, rng_seed, n, p, k, flag, sparse_k)| Cfg {
+    (algo, any::<u64>(), any::<u64>(), 15usize..=max_n, 2usize..=6, 1usize..=4, any::<bool>(), 0usize..=4, proptest::bool::weighted(0.12)).prop_map(
+        |(algo, data_seed, rng_seed, n, p, k, flag, sparse_k, wide)| Cfg {
             algo,
             data_seed,
             rng_seed,
@@ -252,6 +257,8 @@ pub fn strategy(tier: Tier) -> impl Strategy<Value = Cfg> {
             k,
             flag,
             sparse_k: if sparse_k == 0 { 0 } else { sparse_k + 2 },
+            // not for the kernel-based map (features do not matter there) and not for FastICA (cost)
+            wide: wide && !matches!(algo, Algo::DiffusionMap | Algo::FastIcaSeeded),
         },
     )
 }
